@@ -1,34 +1,45 @@
 import Prom.HP.Pres
 namespace Hp
 
-theorem wf_bucketSteps (j : Nat) : ∀ (tl : List CStep), TodoWf tl →
-    (∀ c, c < j → CStep.swap c ∉ tl ∧ CStep.addHot c ∉ tl) → TodoWf (bucketSteps j ++ tl) := by
+/-- the bucket part of the collector's program consists of `swap c` / `addHot c` for `c < j` -/
+theorem mem_bucketSteps {j : Nat} {x : CStep} (h : x ∈ bucketSteps j) :
+    ∃ c, c < j ∧ (x = CStep.swap c ∨ x = CStep.addHot c) := by
   induction j with
-  | zero => intro tl h _; simpa [bucketSteps] using h
+  | zero => simp [bucketSteps] at h
   | succ j ih =>
-    intro tl h hs
-    have hj := hs j (by omega)
-    have : bucketSteps (j + 1) ++ tl = bucketSteps j ++ (CStep.swap j :: CStep.addHot j :: tl) := by
-      simp [bucketSteps]
-    rw [this]
-    apply ih
-    · simp only [TodoWf]
-      refine ⟨by simp, ?_, hj.1, hj.2, h⟩
-      simp [hj.1]
-    · intro c hc
-      have := hs c (by omega)
-      have hne : c ≠ j := by omega
-      simp [this.1, this.2, hne]
+    simp only [bucketSteps, List.mem_append, List.mem_cons, List.not_mem_nil, or_false] at h
+    rcases h with h | rfl | rfl
+    · obtain ⟨c, hc, hx⟩ := ih h
+      exact ⟨c, by omega, hx⟩
+    · exact ⟨j, by omega, .inl rfl⟩
+    · exact ⟨j, by omega, .inr rfl⟩
 
-theorem wf_prog (k : Nat) : TodoWf (prog k) := by
-  simp only [prog, TodoWf]
-  refine ⟨by simp, ?_, ?_⟩
-  · simp [mem_bucketSteps_swap]
-  · apply wf_bucketSteps
-    · simp [TodoWf]
-    · intro c hc
-      have : c ≠ k := by omega
-      simp [this]
+theorem nodup_bucketSteps (j : Nat) : (bucketSteps j).Nodup := by
+  induction j with
+  | zero => simp [bucketSteps]
+  | succ j ih =>
+    simp only [bucketSteps]
+    rw [List.nodup_append]
+    refine ⟨ih, by simp, ?_⟩
+    intro a ha b hb
+    obtain ⟨c, hc, hx⟩ := mem_bucketSteps ha
+    simp only [List.mem_cons, List.not_mem_nil, or_false] at hb
+    rcases hx with rfl | rfl <;> rcases hb with rfl | rfl <;> simp <;> omega
+
+theorem nodup_prog (k : Nat) : (prog k).Nodup := by
+  simp only [prog]
+  rw [List.nodup_cons]
+  refine ⟨by simp [mem_bucketSteps_swap], ?_⟩
+  rw [List.nodup_append]
+  refine ⟨nodup_bucketSteps k, by simp, ?_⟩
+  intro a ha b hb
+  obtain ⟨c, hc, hx⟩ := mem_bucketSteps ha
+  simp only [List.mem_cons, List.not_mem_nil, or_false] at hb
+  rcases hx with rfl | rfl <;> rcases hb with rfl | rfl | rfl <;> simp <;> omega
+
+/-- the steps a collector starts with are well-formed -/
+theorem wf_prog (k : Nat) : TodoWf (prog k) :=
+  ⟨nodup_prog k, fun _ hc => addHot_mem_prog.2 (swap_mem_prog.1 hc)⟩
 
 /-- unique active collector: everything else is inactive -/
 theorem others_inactive {s : St} {k : Nat} (I : Inv k s) {pre post : List Task} {t : Task}
@@ -117,8 +128,10 @@ theorem step_swap {k : Nat} {s : St} (pre post : List Task) (cold : Bool) (ov : 
   simp only [PhaseInv, MoveInv, Frozen] at hmove
   obtain ⟨⟨hh, f1, f2, f3, f4, f5, f6⟩, m1, m2, m3, m4, m5, m6, m7, m8⟩ := hmove
   subst hh
-  simp only [TodoWf] at m3
-  obtain ⟨w1, w2, w3⟩ := m3
+  have m3' := TodoWf.remove_swap (l1 := []) m3
+  simp only [List.nil_append] at m3'
+  obtain ⟨w1, w2, w3⟩ := m3'
+  clear m3
   refine ⟨?_, hawf, ?_, ?_, ?_, ?_, I.snapsOk⟩
   · intro t h
     simp only [List.mem_append, List.mem_cons] at h
@@ -163,15 +176,15 @@ theorem step_swap {k : Nat} {s : St} (pre post : List Task) (cold : Bool) (ov : 
     · exact active_zero_phase _ (hpost t h)
 
 theorem step_unlock {k : Nat} {s : St} (pre post : List Task) (cold : Bool) (ov : Nat)
-    (todo : List CStep) (taken : Cells) (S : List Obs)
-    (ht : s.tasks = pre ++ Task.colMove cold ov (CStep.unlock :: todo) taken S :: post)
+    (taken : Cells) (S : List Obs)
+    (ht : s.tasks = pre ++ Task.colMove cold ov [CStep.unlock] taken S :: post)
     (I : Inv k s) : Inv k { s with
         tasks := pre ++ post
         lock := false
         snaps := s.snaps ++ [(⟨ov, taken⟩, S)]
         asg := fun b => if b = cold then [] else s.asg (!cold) ++ s.asg cold } := by
   obtain ⟨hpre, hpost, hl⟩ := others_inactive I ht (by simp [active])
-  have hmove := I.phase _ (by simp [ht] : Task.colMove cold ov (CStep.unlock :: todo) taken S ∈ s.tasks)
+  have hmove := I.phase _ (by simp [ht] : Task.colMove cold ov [CStep.unlock] taken S ∈ s.tasks)
   have htwf := I.twf
   have hawf := I.awf
   have hzero := I.zero
@@ -182,8 +195,7 @@ theorem step_unlock {k : Nat} {s : St} (pre post : List Task) (cold : Bool) (ov 
   simp only [PhaseInv, MoveInv, Frozen] at hmove
   obtain ⟨⟨hh, f1, f2, f3, f4, f5, f6⟩, m1, m2, m3, m4, m5, m6, m7, m8⟩ := hmove
   subst hh
-  simp only [TodoWf] at m3
-  subst m3
+  clear m3
   have hN : Normal ⟨!cold, n, sh, false, pre ++ post, claimed,
       fun b => if b = cold then [] else asg (!cold) ++ asg cold, snaps ++ [(⟨ov, taken⟩, S)]⟩ := by
     simp only [Normal, Quiet, EqN]
@@ -220,6 +232,7 @@ theorem step_unlock {k : Nat} {s : St} (pre post : List Task) (cold : Bool) (ov 
 theorem step_addHot {k : Nat} {s : St} (pre post : List Task) (cold : Bool) (ov : Nat) (c : Nat)
     (todo : List CStep) (taken : Cells) (S : List Obs)
     (ht : s.tasks = pre ++ Task.colMove cold ov (CStep.addHot c :: todo) taken S :: post)
+    (hs : CStep.swap c ∉ todo)
     (I : Inv k s) : Inv k { s with
         tasks := pre ++ Task.colMove cold ov todo taken S :: post
         sh := modSh s.sh (!cold) (fun x => { x with cell := setCell x.cell c (x.cell c + taken c) }) } := by
@@ -234,8 +247,11 @@ theorem step_addHot {k : Nat} {s : St} (pre post : List Task) (cold : Bool) (ov 
   simp only [PhaseInv, MoveInv, Frozen] at hmove
   obtain ⟨⟨hh, f1, f2, f3, f4, f5, f6⟩, m1, m2, m3, m4, m5, m6, m7, m8⟩ := hmove
   subst hh
-  simp only [TodoWf] at m3
-  obtain ⟨w1, w2, w3⟩ := m3
+  have m3' := TodoWf.remove_addHot (l1 := []) m3 hs
+  simp only [List.nil_append] at m3'
+  obtain ⟨w2, w3⟩ := m3'
+  have w1 := hs
+  clear m3
   refine ⟨?_, hawf, ?_, ?_, ?_, ?_, I.snapsOk⟩
   · intro t h
     simp only [List.mem_append, List.mem_cons] at h
@@ -289,8 +305,10 @@ theorem step_addCount {k : Nat} {s : St} (pre post : List Task) (cold : Bool) (o
   simp only [PhaseInv, MoveInv, Frozen] at hmove
   obtain ⟨⟨hh, f1, f2, f3, f4, f5, f6⟩, m1, m2, m3, m4, m5, m6, m7, m8⟩ := hmove
   subst hh
-  simp only [TodoWf] at m3
-  obtain ⟨w1, w3⟩ := m3
+  have m3' := TodoWf.remove_addCount (l1 := []) m3
+  simp only [List.nil_append] at m3'
+  obtain ⟨w1, w3⟩ := m3'
+  clear m3
   refine ⟨?_, hawf, ?_, ?_, ?_, ?_, I.snapsOk⟩
   · intro t h
     simp only [List.mem_append, List.mem_cons] at h
